@@ -831,6 +831,157 @@ def eval_sockets(case):
     return r
 
 
+# ------------------------------------------- G: settings applied by create_server
+
+
+def applied_cases(tier):
+    perms = [None, "600", "660", "666", "700", "777", "640", "604", "000"]
+    if tier != "quick":
+        perms += ["0600", "755", "711", "444", "222", "111", "7", "70"]
+    for pv in perms:
+        for um in (0o022, 0, 0o077, 0o027) if tier != "quick" or pv in (None, "660", "666") else (0o022, 0o077):
+            for form in ("kw", "cli"):
+                yield {"t": "applied", "what": "unix-perms", "perms": pv, "umask": um, "form": form}
+    for n in (1, 2, 4, 7):
+        for form in ("kw", "cli"):
+            yield {"t": "applied", "what": "threads", "n": n, "form": form}
+    for listen in ("127.0.0.1:0", "127.0.0.1:0 127.0.0.1:0", "[::1]:0", "127.0.0.1:0 [::1]:0"):
+        yield {"t": "applied", "what": "listen", "listen": listen}
+    for kinds in (["inet"], ["inet", "inet"], ["unix"], ["inet6"]):
+        yield {"t": "applied", "what": "sockets", "kinds": kinds}
+
+
+def eval_applied(case):
+    """The settings as they arrive where they act: the mode of the socket file, the number of worker threads,
+    the addresses bound, the sockets listened on."""
+    import shutil
+    import stat as statmod
+    import tempfile
+
+    from waitress import create_server
+    from waitress.adjustments import Adjustments
+
+    what = case["what"]
+    r = R("applied|%s|%s" % (what, "|".join("%s=%s" % (k, case[k]) for k in sorted(case) if k not in ("t", "what"))))
+    servers = []
+    tmpd = None
+    old_umask = None
+    socks = None
+
+    def make(kw):
+        if case.get("form") == "cli":
+            argv = ["--%s=%s" % (k.replace("_", "-"), v) for k, v in kw.items()] + ["vf.checks.c20:dummy_app"]
+            with warnings.catch_warnings():
+                warnings.simplefilter("ignore")
+                kw2 = Adjustments.parse_args(argv)
+            kw = {k: v for k, v in kw2.items() if k not in ("help", "call", "app")}
+        m = {}
+        with warnings.catch_warnings():
+            warnings.simplefilter("ignore")
+            srv = create_server(dummy_app, map=m, **kw)
+        servers.append(srv)
+        srv._vf_map = m
+        return srv
+
+    def listeners(srv):
+        return [d for d in srv._vf_map.values() if getattr(d, "accepting", False)]
+
+    try:
+        if what == "unix-perms":
+            os.makedirs(core.WORK, exist_ok=True)
+            tmpd = tempfile.mkdtemp(prefix="c20-", dir="/tmp" if len(core.WORK) > 60 else core.WORK)
+            path = os.path.join(tmpd, "s")
+            kw = {"unix_socket": path}
+            if case["perms"] is not None:
+                kw["unix_socket_perms"] = case["perms"]
+            want = int(case["perms"] or "600", 8)
+            old_umask = os.umask(case["umask"])
+            srv = make(kw)
+            mode = statmod.S_IMODE(os.stat(path).st_mode)
+            if not statmod.S_ISSOCK(os.stat(path).st_mode):
+                r.v("applied-wrong:unix_socket", "%s is not a socket" % path)
+            if mode != want:
+                r.v("applied-wrong:unix_socket_perms", "unix_socket_perms=%r under umask %03o (%s form): the socket file has mode %04o, documented %04o"
+                    % (case["perms"], case["umask"], case["form"], mode, want))
+            now = os.umask(case["umask"])
+            if now != case["umask"]:
+                r.c("observed:umask-changed-by-create_server")
+            r.c("applied:unix-perms")
+            r.verdict = "mode %04o" % mode
+        elif what == "threads":
+            srv = make({"listen": "127.0.0.1:0", "threads": case["n"]})
+            disp = srv.task_dispatcher
+            n = len(disp.threads)
+            if n != case["n"]:
+                r.v("applied-wrong:threads", "threads=%d (%s form): the dispatcher has %d worker threads" % (case["n"], case["form"], n))
+            r.c("applied:threads")
+            r.verdict = "%d threads" % n
+        elif what == "listen":
+            items = case["listen"].split()
+            try:
+                srv = make({"listen": case["listen"]})
+            except OSError as e:
+                r.c("skipped:address-unavailable")
+                r.verdict = "skipped: %s" % e
+                r.evals = 0
+                return r
+            bound = [d.socket.getsockname()[0] for d in listeners(srv)]
+            want = sorted(split_hostport(i)[0].strip("[]") for i in items)
+            if sorted(bound) != want:
+                r.v("applied-wrong:listen", "listen=%r: listening addresses %r, documented %r" % (case["listen"], sorted(bound), want))
+            r.c("applied:listen")
+            r.verdict = "bound %s" % sorted(bound)
+        elif what == "sockets":
+            socks = make_sockets(case["kinds"])
+            if socks is None:
+                r.c("skipped:socket-kind-unavailable")
+                r.verdict = "skipped"
+                r.evals = 0
+                return r
+            for s_ in socks:
+                try:
+                    if s_.family == socket.AF_UNIX:
+                        os.makedirs(core.WORK, exist_ok=True)
+                        tmpd = tempfile.mkdtemp(prefix="c20-", dir="/tmp" if len(core.WORK) > 60 else core.WORK)
+                        s_.bind(os.path.join(tmpd, "s"))
+                    elif s_.family == socket.AF_INET6:
+                        s_.bind(("::1", 0))
+                    else:
+                        s_.bind(("127.0.0.1", 0))
+                except OSError as e:
+                    r.c("skipped:address-unavailable")
+                    r.verdict = "skipped: %s" % e
+                    r.evals = 0
+                    return r
+            srv = make({"sockets": socks})
+            fds = sorted(s_.fileno() for s_ in socks)
+            got = sorted(d.socket.fileno() for d in listeners(srv))
+            if got != fds:
+                r.v("applied-wrong:sockets", "sockets=%s: listening on descriptors %r, given %r" % (js(case["kinds"]), got, fds))
+            r.c("applied:sockets")
+            r.verdict = "listening on the %d given socket(s)" % len(fds)
+    except Exception as e:  # noqa: BLE001
+        r.v("exception:" + type(e).__name__, "%s: %r" % (r.dkey, e))
+        r.verdict = "exception"
+    finally:
+        if old_umask is not None:
+            os.umask(old_umask)
+        for srv in servers:
+            try:
+                srv.task_dispatcher.shutdown(timeout=1)
+            except Exception:
+                pass
+            try:
+                srv.close()
+            except Exception:
+                pass
+        if socks:
+            close_sockets(socks)
+        if tmpd:
+            shutil.rmtree(tmpd, ignore_errors=True)
+    return r
+
+
 # ------------------------------------------------- E/F: casts and CLI spellings
 
 
@@ -1201,6 +1352,7 @@ EVAL = {
     "cli": eval_cli,
     "cli-repeat": eval_cli_repeat,
     "cli-sockets": eval_cli_sockets,
+    "applied": eval_applied,
 }
 
 NPARTS = 8
@@ -1227,6 +1379,10 @@ def required_counters(tier):
         "docs:params_checked",
         "help:options_checked",
         "unknown:refused",
+        "applied:unix-perms",
+        "applied:threads",
+        "applied:listen",
+        "applied:sockets",
     ]
 
 
@@ -1249,7 +1405,7 @@ def run_shard(spec):
     acc = Acc()
     tier = spec.get("tier", "quick")
     if spec["mode"] == "rules":
-        for gen in (excl_cases, proxy_cases, unknown_cases, socket_cases):
+        for gen in (excl_cases, proxy_cases, unknown_cases, socket_cases, applied_cases):
             want = "accepted" if gen is excl_cases else "refused"
             shown = False
             for case in gen(tier):
